@@ -15,13 +15,16 @@ def fifo_case(draw, broker):
     ops = []
     # other priority levels in the same queue: first-in first-out is demanded inside each level, whatever the others hold
     mixed = draw(st.integers(0, 2)) == 0
+    big_bodies = draw(st.integers(0, 3)) == 0
     others = [p for p in (0, 5, 9) if p != prio]
 
     def enq(n):
         for _ in range(n):
             t = "tF" if foreign and draw(st.integers(0, 3)) == 0 else "t0"
             pr = draw(st.sampled_from([prio, prio] + others)) if mixed else prio
-            ops.append({"op": "enq", "q": "qf", "topic": t, "prio": pr, "delay": None, "payload": "", "client": "p0"})
+            # a few messages carry a large body (70-200 KB): size must not change their place in the order
+            big = "B" * draw(st.sampled_from([70_000, 200_000])) if big_bodies and draw(st.integers(0, 4)) == 0 else ""
+            ops.append({"op": "enq", "q": "qf", "topic": t, "prio": pr, "delay": None, "payload": big, "client": "p0"})
 
     start = {"op": "start", "q": "qf", "client": "c0", "topics": ["t0"] if foreign or draw(st.booleans()) else None,
              "category": "NORMAL", "max_unacked": draw(st.sampled_from([None, 1, 3]))}
@@ -57,7 +60,10 @@ def fifo_case(draw, broker):
             ops += [dict(consume), {"op": "ack", "c": 0, "i": 0}]
         for _ in range(draw(st.integers(1, 2))):
             ops.append({"op": "pause", "c": 0})
-            if draw(st.booleans()):
+            # (RabbitMQ: a delivery that arrives while the consumer is paused is bounced - rejected after 0.1 s - by design; that
+            #  is a return made by the consumer itself, after which later messages may legitimately come first.  Arrivals during
+            #  the pause are therefore generated for the other brokers only.)
+            if broker != "amqp" and draw(st.booleans()):
                 extra = draw(st.integers(1, 3))
                 enq(extra)
                 total += extra
